@@ -66,9 +66,15 @@ def make(interp):
     def np_divide(a, b, out=None, where=None, casting=None, **kw):
         only_kw("theory_seq.np_divide", kw)
         theory_np._use("numpy.divide(a,b,out=zeros,where=c): a/b where c holds, 0 elsewhere (A-REAL: no integer truncation, see the bounded dtype companion)")
+        if casting is not None and casting != "unsafe":
+            raise Undecided(f"np.divide(casting={casting!r})")
         q = a / b
         if where is None:
             return q
+        # the entries outside `where` keep what `out` held: the contract is stated for out = zeros
+        o = out if isinstance(out, V) else None
+        if o is None or not z3.is_true(z3.simplify(real(o.t) == 0)):
+            raise Undecided("np.divide(where=...) with an `out` array that is not all zeros")
         z = 0 * theory_np.lift(a)
         r = ite(where, V(q.t, q.axes), V(real(z.t), z.axes))
         w = where if isinstance(where, V) else V(to_term(where))
